@@ -36,5 +36,17 @@ let () = iter_lines (fun line ->
     List.iter (fun a -> print_char ' '; print_string (match a with SWrite p -> "W:" ^ hex_of_bytes p | SCloseLocal -> "CL" | SCloseStream -> "CS"))
       (route_tcp_up (parse_list parse_rd reads));
     print_newline ()
+  | [id; "S"; _gate; csizes; ccloses; psizes; peof] ->
+    (* the relay pair of one stream (Model/RelayPair.v) under a fair schedule (Down, Up alternating until both
+       have finished or nothing moves any more) *)
+    let sizes s = if s = "-" then [] else List.map int_of_string (split_on ',' s) in
+    let chunk a b c k n = List.init n (fun i -> byte_table.((k * a + i * b + c) land 255)) in
+    let cch = List.mapi (chunk 53 7 1) (sizes csizes) and pch = List.mapi (chunk 91 5 3) (sizes psizes) in
+    let r0 = init cch (ccloses = "1") pch (peof = "1") in
+    let n = 2 * (List.length cch + List.length pch) + 12 in
+    let sched = List.concat (List.init n (fun _ -> [Down; Up])) in
+    let r = run false r0 sched in
+    Printf.printf "%s out=%s closed=%s up=%s sclosed=%s finished=%s\n" id (hex_of_bytes r.l_out) (b01 r.l_closed)
+      (hex_of_bytes (List.concat r.s_out)) (b01 r.s_closed) (b01 (finished r))
   | [] -> ()
   | id :: _ -> Printf.printf "%s bad-case\n" id)
